@@ -4,15 +4,24 @@ Leg B: real helpers of /repo vs the Lean model (Model/C13.lean), plus the proper
 evaluated directly on the implementation's outputs."""
 import itertools
 import multiprocessing as mp
+import os
 
 import numpy as np
 
 ID = "C13"
 RULE = ("exhaustive small extents (1-3 axes) for shapes/crops; next_fast_len for every n below a bound; random integer "
         "arrays for padding; real rfftn/irfftn round trips; shared memory read back in a child process. "
+        "Widened: extents up to several thousand, primes / non-fast lengths / extent-1 axes, shapes handed over as tuple, list, "
+        "integer arrays or numpy scalars; plans built on the caller's buffers, with an explicit inverse shape and planner arguments, "
+        "reused for several inputs at scales 1e-9..1e3 and offsets; padding of every dtype the library uses in every memory layout "
+        "(Fortran, strided, reversed, read-only, memmap), fractional pad values, pad value left out after having been given; "
+        "n-D centre extraction; crops out of an explicitly given convolution shape; masking form in every dtype/layout; unknown "
+        "mode names; shared memory without a manager, many live blocks of equal size, special bit patterns, blocks beyond a page. "
         "distinct = distinct (helper, shapes/parities) tuples; trivial cases (extent-1 axes only) are not counted")
 ASSUMPTIONS = ["pyfftw.next_fast_len is compared with the model for every n below the bound, beyond that it is trusted",
-               "rfftn/irfftn numerics are pyFFTW's: the round trip is checked on the real code only (tolerance 1e-4 f32 / 1e-10 f64)"]
+               "rfftn/irfftn numerics are pyFFTW's: the round trip is checked on the real code only (tolerance 1e-4 f32 / 1e-10 f64 for "
+               "small integers; for scaled data the a-priori bound 8 eps (1+log2 N) sqrt(N) |x|_2 per forward coefficient and "
+               "16 eps (1+log2 N) |x|_2 per round-trip sample)"]
 TRUSTED = ["C13: pyFFTW transforms and OS shared memory are exercised, not modelled"]
 
 
@@ -20,6 +29,124 @@ def _child_read(args, q):
     from tme.backends import backend as be
     arr = be.from_sharedarr(args)
     q.put(np.array(arr).tolist())
+
+
+def _child_read_many(args_list, q):
+    from tme.backends import backend as be
+    out = []
+    for args in args_list:
+        try:
+            arr = np.ascontiguousarray(be.from_sharedarr(args))
+            out.append((arr.tobytes(), tuple(arr.shape), arr.dtype.str))
+        except Exception as e:  # noqa
+            out.append(("raised:" + type(e).__name__ + ":" + str(e)[:80], None, None))
+    q.put(out)
+
+
+def _call(ctx, clause, inp, key, fn):
+    """run a call into the library; an exception is a failure of the clause (with the input), never a crash of the check"""
+    try:
+        return True, fn()
+    except Exception as e:  # noqa
+        ctx.spec(clause, inp, False, {"raised": type(e).__name__ + ": " + str(e)[:160]}, key=key)
+        return False, None
+
+
+_CONTAINERS = ("tuple", "list", "int64-array", "int32-array", "numpy-scalars")
+
+
+def _container(kind, s):
+    s = [int(x) for x in s]
+    if kind == "tuple":
+        return tuple(s)
+    if kind == "list":
+        return list(s)
+    if kind == "int64-array":
+        return np.array(s, dtype=np.int64)
+    if kind == "int32-array":
+        return np.array(s, dtype=np.int32)
+    return tuple(np.int32(x) for x in s)
+
+
+def _layouts(a, rng=None, scratch_name=None):
+    """the same values in every memory layout numpy hands out (the property speaks of arrays, not of C-ordered arrays)"""
+    yield "C", np.ascontiguousarray(a)
+    yield "F", np.asfortranarray(a)
+    yield "transposed-view", np.ascontiguousarray(a.T).T
+    big = np.zeros(tuple(2 * x + 1 for x in a.shape), dtype=a.dtype)
+    sl = tuple(slice(1, 1 + 2 * x, 2) for x in a.shape)
+    big[sl] = a
+    yield "strided-offset-view", big[sl]
+    yield "reversed-view", np.ascontiguousarray(a[::-1])[::-1]
+    ro = np.array(a, copy=True)
+    ro.setflags(write=False)
+    yield "read-only", ro
+    if scratch_name is not None:
+        from pv import env
+        path = os.path.join(env.scratch(), scratch_name)
+        mm = np.memmap(path, dtype=a.dtype, mode="w+", shape=a.shape)
+        mm[...] = a
+        mm.flush()
+        del mm
+        yield "memmap-read-only", np.memmap(path, dtype=a.dtype, mode="r", shape=a.shape)
+
+
+def _values(rng, shape, dt, kind):
+    """integer-valued, or scaled / offset reals (and complex numbers with an imaginary part)"""
+    dt = np.dtype(dt)
+    if kind == "int" or dt.kind in "iu":
+        re = rng.integers(-9, 10, size=shape).astype(np.float64)
+        im = rng.integers(-9, 10, size=shape).astype(np.float64)
+    else:
+        scale = float(rng.choice([1e-9, 1e-3, 1.0, 1e3]))
+        offset = float(rng.choice([0.0, 0.0, 10.0, 1000.0])) * scale
+        re = offset + scale * rng.standard_normal(size=shape)
+        im = scale * rng.standard_normal(size=shape)
+    if dt.kind == "c":
+        return (re + 1j * im).astype(dt)
+    return re.astype(dt)
+
+
+def _conv_shapes_case(ctx, be, tmem, inp, s1, s2, a1, a2, m):
+    """both implementations of the shape planner on (a1, a2) (= s1, s2 in some container): model agreement and the clause"""
+    kwcall = bool(inp.get("by-keyword"))
+    for name, key, fn in (("compute_convolution_shapes", "convshapes",
+                           (lambda: be.compute_convolution_shapes(arr1_shape=a1, arr2_shape=a2)) if kwcall else (lambda: be.compute_convolution_shapes(a1, a2))),
+                          ("memory._compute_convolution_shapes", "convshapes:memory",
+                           (lambda: tmem._compute_convolution_shapes(arr1_shape=a1, arr2_shape=a2)) if kwcall else (lambda: tmem._compute_convolution_shapes(a1, a2)))):
+        clause = "planned>=linear-conv & half-spectrum shape"
+        inp_ = dict(inp, function=name)
+        okc, r = _call(ctx, clause, inp_, key, fn)
+        if not okc:
+            continue
+        try:
+            conv, fast, ft = r
+            impl = {"conv": [int(x) for x in conv], "fast": [int(x) for x in fast], "ft": [int(x) for x in ft]}
+        except Exception as e:  # noqa
+            ctx.spec(clause, inp_, False, {"result": repr(r)[:200], "raised": type(e).__name__}, key=key)
+            continue
+        ctx.agree(name, inp, impl, m)
+        ok = len(impl["fast"]) == len(s1) and len(impl["conv"]) == len(s1) and \
+            all(f >= a + b - 1 for f, a, b in zip(impl["fast"], s1, s2)) and \
+            impl["ft"] == impl["fast"][:-1] + [impl["fast"][-1] // 2 + 1] and \
+            all(c == a + b - 1 for c, a, b in zip(impl["conv"], s1, s2))
+        ctx.spec(clause, inp_, ok, impl, key=key)
+        # what is returned belongs to the caller (the callers do modify these lists): scribbling on it must not change what the
+        # next call with the same shapes returns
+        try:
+            for part in r:
+                if isinstance(part, (list, np.ndarray)) and len(part):
+                    part[0] = -7
+        except Exception:  # noqa
+            pass
+        okc, r2 = _call(ctx, clause, dict(inp_, call="second call, after the first result was modified by the caller"), key, fn)
+        if okc:
+            try:
+                impl2 = {"conv": [int(x) for x in r2[0]], "fast": [int(x) for x in r2[1]], "ft": [int(x) for x in r2[2]]}
+            except Exception:  # noqa
+                impl2 = repr(r2)[:200]
+            ctx.spec(clause, dict(inp_, call="second call, after the first result was modified by the caller"), impl2 == impl,
+                     {"first": impl, "second": impl2}, key=key + ":second-call")
 
 
 def run(ctx):
@@ -64,17 +191,8 @@ def run(ctx):
             reqs.append(("c13.convShapes", {"s1": list(s1), "s2": list(s2)}))
     models = d.batch(reqs)
     for (s1, s2), m in zip(cases, models):
-        conv, fast, ft = be.compute_convolution_shapes(s1, s2)
-        conv2, fast2, ft2 = tmem._compute_convolution_shapes(s1, s2)
-        impl = {"conv": [int(x) for x in conv], "fast": [int(x) for x in fast], "ft": [int(x) for x in ft]}
-        impl2 = {"conv": [int(x) for x in conv2], "fast": [int(x) for x in fast2], "ft": [int(x) for x in ft2]}
         inp = {"s1": s1, "s2": s2}
-        ctx.agree("compute_convolution_shapes", inp, impl, m)
-        ctx.agree("memory._compute_convolution_shapes", inp, impl2, m)
-        ok = all(f >= a + b - 1 for f, a, b in zip(impl["fast"], s1, s2)) and \
-            impl["ft"] == impl["fast"][:-1] + [impl["fast"][-1] // 2 + 1] and \
-            all(c == a + b - 1 for c, a, b in zip(impl["conv"], s1, s2))
-        ctx.spec("planned>=linear-conv & half-spectrum shape", inp, ok, impl, key="convshapes")
+        _conv_shapes_case(ctx, be, tmem, inp, s1, s2, s1, s2, m)
         if max(s1) > 1 or max(s2) > 1:
             ctx.distinct(("conv", s1, s2))
         ctx.count(f"conv:ndim={len(s1)}")
@@ -87,16 +205,22 @@ def run(ctx):
     for s1 in shapes:
         for dt, cdt, tol in ((np.float32, np.complex64, 1e-4), (np.float64, np.complex128, 1e-10)):
             s2 = tuple(int(x) for x in rng.integers(1, 6, size=len(s1)))
-            conv, fast, ft = be.compute_convolution_shapes(s1, s2)
-            rfftn, irfftn = be.build_fft(fast_shape=tuple(fast), fast_ft_shape=tuple(ft), real_dtype=dt, complex_dtype=cdt)
-            x = rng.integers(-4, 5, size=fast).astype(dt)
-            xin = be.zeros(tuple(fast), dt)
-            xin[:] = x
-            spec_ = be.zeros(tuple(ft), cdt)
-            out = be.zeros(tuple(fast), dt)
-            rfftn(xin, spec_)
-            irfftn(spec_, out)
-            err = float(np.max(np.abs(out - x)))
+
+            def _rt():
+                conv, fast, ft = be.compute_convolution_shapes(s1, s2)
+                rfftn, irfftn = be.build_fft(fast_shape=tuple(fast), fast_ft_shape=tuple(ft), real_dtype=dt, complex_dtype=cdt)
+                x = rng.integers(-4, 5, size=fast).astype(dt)
+                xin = be.zeros(tuple(fast), dt)
+                xin[:] = x
+                spec_ = be.zeros(tuple(ft), cdt)
+                out = be.zeros(tuple(fast), dt)
+                rfftn(xin, spec_)
+                irfftn(spec_, out)
+                return fast, ft, float(np.max(np.abs(out - x)))
+            okc, r = _call(ctx, "rfftn∘irfftn = id", {"s1": s1, "s2": s2, "dtype": dt.__name__}, "fft-roundtrip", _rt)
+            if not okc:
+                continue
+            fast, ft, err = r
             ctx.spec("rfftn∘irfftn = id", {"fast": fast, "ft": ft, "dtype": dt.__name__}, err <= tol, {"err": err}, key="fft-roundtrip")
             ctx.count("fft:last-" + ("odd" if fast[-1] % 2 else "even"))
             ctx.distinct(("fft", tuple(fast), dt.__name__))
@@ -144,13 +268,16 @@ def run(ctx):
         pad = int(rng.choice([0, 1, -1, 7]))
         dt = rng.choice([np.float32, np.float64, np.int32, np.complex64])
         a = rng.integers(-9, 10, size=sh)
-        out = be.topleft_pad(a.astype(dt), tuple(ns), pad)
+        okc, out = _call(ctx, "corner pad", {"shape": sh, "newshape": ns, "pad": pad, "data": a.reshape(-1).tolist(), "dtype": np.dtype(dt).name},
+                         "topleft_pad", lambda: np.asarray(be.topleft_pad(a.astype(dt), tuple(ns), pad)))
+        if not okc:
+            continue
         keep.append((sh, ns, pad, a, out, dt))
         reqs.append(("c13.topleftPad", {"shape": sh, "data": a.reshape(-1).tolist(), "newshape": ns, "pad": pad}))
     models = d.batch(reqs)
     for (sh, ns, pad, a, out, dt), m in zip(keep, models):
         inp = {"shape": sh, "newshape": ns, "pad": pad, "data": a.reshape(-1).tolist(), "dtype": np.dtype(dt).name}
-        impl = np.real(out).astype(int).reshape(-1).tolist()
+        impl = np.real(out).astype(int).reshape(-1).tolist() if out.dtype.kind in "fiuc" else repr(out.dtype)
         ctx.agree("topleft_pad", inp, impl, m)
         # spec: leading corner = data (cropped), rest = pad, shape as requested
         ok = list(out.shape) == ns
@@ -175,13 +302,15 @@ def run(ctx):
             keep.append((cur, new))
     models = d.batch(reqs)
     for i, (cur, new) in enumerate(keep):
-        box = _center_slice((cur,), (new,))[0]
         arr = np.arange(cur)
+        okc, r = _call(ctx, "centre extraction: extent and symmetry", {"cur": cur, "new": new}, "centered",
+                       lambda: (_center_slice((cur,), (new,))[0], np.asarray(centered(arr, (new,))), np.asarray(be.extract_center(arr, (new,)))))
+        if not okc:
+            continue
+        box, got, got2 = r
         ctx.agree("_center_slice", {"cur": cur, "new": new}, [int(box.start), int(box.stop)], models[3 * i])
-        got = centered(arr, (new,))
         m = models[3 * i + 1]
         ctx.agree("centered", {"cur": cur, "new": new}, got.tolist(), list(range(m[0], m[1])))
-        got2 = be.extract_center(arr, (new,))
         m2 = models[3 * i + 2]
         ctx.agree("extract_center", {"cur": cur, "new": new}, np.array(got2).tolist(), list(range(m2[0], m2[1])))
         if new <= cur:
@@ -202,7 +331,7 @@ def run(ctx):
         cur = [int(x) for x in rng.integers(1, 9, size=nd)]
         new = [int(c if rng.random() < 0.4 else rng.integers(1, c + 1)) for c in cur]
         vals = rng.integers(1, 9, size=cur).astype(np.float32)
-        box = _center_slice(tuple(cur), tuple(new))
+        box = tuple(slice((c - n) // 2, (c - n) // 2 + n) for c, n in zip(cur, new))
         want = np.zeros_like(vals)
         want[box] = vals[box]
         try:
@@ -238,7 +367,9 @@ def run(ctx):
             continue  # s1 < s2 in valid mode: undocumented, implementation-defined (python slicing); not compared
         mm = m if m[1] else [None, 0]
         ctx.agree("apply_convolution_mode", inp, impl, mm)
-        if s2 <= s1 and isinstance(impl, list):
+        if isinstance(impl, str):
+            ctx.spec("full/same/valid extents, central", inp, False, impl, key="apply_convolution_mode")
+        if (s2 <= s1 or mode != "valid") and isinstance(impl, list):
             want = {"full": s1 + s2 - 1, "same": s1, "valid": s1 - s2 + s2 % 2}[mode]
             ok = impl[1] == want
             if ok and want:
@@ -255,8 +386,21 @@ def run(ctx):
         mode = str(rng.choice(["full", "same", "valid"]))
         fast = [int(next_fast_len(a + b - 1)) for a, b in zip(s1, s2)]
         idx = np.indices(fast)
-        got = [apply_convolution_mode(idx[ax], mode, s1, s2) for ax in range(nd)]
+        okc, got = _call(ctx, "full/same/valid extents, central", {"s1": s1, "s2": s2, "mode": mode}, "apply_convolution_mode",
+                         lambda: [np.asarray(apply_convolution_mode(idx[ax], mode, s1, s2)) for ax in range(nd)])
+        if not okc:
+            continue
         impl = [[int(g.min()), int(g.max()) - int(g.min()) + 1] if g.size else [None, 0] for g in got]
+        # the property's clause on the n-D result: extents as documented, every axis central in the convolution shape
+        wantext = [{"full": a + b - 1, "same": a, "valid": a - b + b % 2}[mode] for a, b in zip(s1, s2)]
+        okn = all(g.shape == tuple(wantext) for g in got)
+        if okn and all(wantext):
+            for ax in range(nd):
+                lo = impl[ax][0]
+                right = (s1[ax] + s2[ax] - 1) - (lo + wantext[ax])
+                okn = okn and lo <= right <= lo + 1 and np.array_equal(
+                    got[ax], np.broadcast_to(np.arange(lo, lo + wantext[ax]).reshape([-1 if k == ax else 1 for k in range(nd)]), wantext))
+        ctx.spec("full/same/valid extents, central", {"s1": s1, "s2": s2, "mode": mode}, okn, impl, key="apply_convolution_mode")
         model = [table[(a, b, mode)] if table[(a, b, mode)][1] else [None, 0] for a, b in zip(s1, s2)]
         if any(m[1] == 0 for m in model):
             model = [[None, 0]] * nd
@@ -312,8 +456,16 @@ def run(ctx):
             lay = list(layouts(a0))
             for li, (lname, a) in enumerate(lay):
                 assert a.shape == a0.shape and np.array_equal(a, a0), lname
-                args = be.to_sharedarr(a, smh)
-                same_here = np.array_equal(be.from_sharedarr(args), a0)
+                inp_ = {"shape": sh, "dtype": np.dtype(dt).name, "layout": lname, "values": a0.tolist()}
+                okc, args = _call(ctx, "shared memory reads back identical in another process", inp_, "sharedarr",
+                                  lambda: be.to_sharedarr(a, smh))
+                if not okc:
+                    continue
+                okc, here = _call(ctx, "shared memory reads back identical in another process", inp_, "sharedarr",
+                                  lambda: np.array(be.from_sharedarr(args)))
+                if not okc:
+                    continue
+                same_here = here.shape == a0.shape and here.dtype == a0.dtype and np.array_equal(here, a0)
                 back = a0.tolist()
                 if li == i % len(lay) or (li == 1 and i % 2 == 0):          # a child process for some of them (spawn is slow)
                     q = mpctx.Queue()
@@ -326,3 +478,582 @@ def run(ctx):
                          same_here and back == a0.tolist(), key="sharedarr")
                 ctx.distinct(("shm", sh, np.dtype(dt).name, lname))
                 ctx.count("shm-layout:" + lname)
+
+    # ---- widened generators (one function per clause of the property)
+    # the helpers are methods of a backend object whose precision is chosen by constructor arguments: the default one and
+    # instances of the same class built for double precision / 64-bit indices are all exercised
+    from tme.backends.npfftw_backend import NumpyFFTWBackend
+    bes = [("default", be)]
+    for name, kw in (("float64/complex128/int64", dict(float_dtype=np.float64, complex_dtype=np.complex128, int_dtype=np.int64, overflow_safe_dtype=np.float64)),
+                     ("float32/complex64/int64", dict(float_dtype=np.float32, complex_dtype=np.complex64, int_dtype=np.int64))):
+        okc, b = _call(ctx, "backend object for another precision", {"arguments": {k: np.dtype(v).name for k, v in kw.items()}}, "backend-constructor",
+                       lambda: NumpyFFTWBackend(**kw))
+        if okc:
+            bes.append((name, b))
+    _conv_wide(ctx, bes, tmem, d)
+    _fft_wide(ctx, bes)
+    _pad_wide(ctx, bes, d)
+    _center_wide(ctx, bes, d)
+    _crop_wide(ctx, be, d)
+    _shm_wide(ctx, bes)
+
+
+# =====================================================================================================================
+def _conv_wide(ctx, bes, tmem, d):
+    """shape planner: extents up to several thousand (beyond every table / threshold a planner might keep), primes and lengths
+    next to fast lengths, template larger than target, shapes handed over in every container the callers use"""
+    from pyfftw import next_fast_len
+    rng = ctx.rng("conv-wide")
+    specials = [1, 2, 3, 4, 5, 9, 13, 17, 29, 33, 64, 65, 97, 101, 127, 128, 129, 211, 257, 512, 1021, 1025, 2049, 4097]
+    n = ctx.budget(480, 6000)
+    reqs, keep = [], []
+    for i in range(n):
+        nd = 1 + i % 3
+        kind = ("small", "medium", "large", "special", "next-to-fast")[(i // 3) % 5]
+        if kind == "special":
+            s1 = [int(x) for x in rng.choice(specials, size=nd)]
+            s2 = [int(x) for x in rng.choice(specials, size=nd)]
+        elif kind == "next-to-fast":
+            # convolution extents that are a fast length, one more and one less than a fast length
+            s1, s2 = [], []
+            for _ in range(nd):
+                f = int(next_fast_len(int(rng.integers(2, 3000))))
+                c = max(1, f + int(rng.integers(-1, 2)))
+                a = int(rng.integers(1, c + 1))
+                s1.append(a)
+                s2.append(c + 1 - a)
+        else:
+            hi = {"small": 13, "medium": 200, "large": 4000}[kind]
+            s1 = [int(x) for x in rng.integers(1, hi + 1, size=nd)]
+            s2 = [int(x) for x in rng.integers(1, hi + 1, size=nd)]
+        cont = _CONTAINERS[int(rng.integers(len(_CONTAINERS)))]
+        keep.append((s1, s2, cont, kind))
+        reqs.append(("c13.convShapes", {"s1": s1, "s2": s2}))
+    models = d.batch(reqs)
+    for j, ((s1, s2, cont, kind), m) in enumerate(zip(keep, models)):
+        a1, a2 = _container(cont, s1), _container(cont, s2)
+        bname, be = bes[j % len(bes)]
+        inp = {"s1": s1, "s2": s2, "given-as": cont, "backend": bname, "by-keyword": bool(j % 2)}
+        _conv_shapes_case(ctx, be, tmem, inp, s1, s2, a1, a2, m)
+        # the shapes handed in are the caller's: they are not modified
+        ctx.spec("planned>=linear-conv & half-spectrum shape", dict(inp, what="arguments unchanged"),
+                 [int(x) for x in a1] == s1 and [int(x) for x in a2] == s2, key="convshapes:arguments-modified")
+        ctx.count("conv-wide:" + kind)
+        ctx.count("conv-wide:given-as-" + cont)
+        ctx.distinct(("convw", tuple(s1), tuple(s2)))
+
+
+# =====================================================================================================================
+def _fft_case(ctx, be, rng, fast, dt, cdt, variant):
+    """one transform pair; returns nothing, records clauses.  variant = (buffers, inverse, fftargs)"""
+    buffers, inverse, fftargs_kind = variant
+    fast = tuple(int(x) for x in fast)
+    ft = fast[:-1] + (fast[-1] // 2 + 1,)
+    n = int(np.prod(fast))
+    eps = float(np.finfo(dt).eps)
+    inp = {"fast": list(fast), "ft": list(ft), "dtype": np.dtype(dt).name, "plan-buffers": buffers, "inverse-shape": inverse,
+           "fftargs": fftargs_kind}
+    kw = {}
+    if buffers == "callers":
+        kw["temp_real"] = be.zeros(fast, dt)
+        kw["temp_fft"] = be.zeros(ft, cdt)
+    if inverse == "explicit":
+        kw["inverse_fast_shape"] = fast
+    if fftargs_kind == "empty-dict":
+        kw["fftargs"] = {}
+    elif fftargs_kind == "estimate":
+        kw["fftargs"] = {"planner_effort": "FFTW_ESTIMATE"}
+    as_list = bool(rng.integers(2))
+    inp["shapes-given-as"] = "list" if as_list else "tuple"
+    if as_list and "inverse_fast_shape" in kw:
+        kw["inverse_fast_shape"] = list(fast)
+    okc, plans = _call(ctx, "rfftn∘irfftn = id", inp, "fft-roundtrip",
+                       lambda: be.build_fft(fast_shape=list(fast) if as_list else fast, fast_ft_shape=list(ft) if as_list else ft,
+                                            real_dtype=dt, complex_dtype=cdt, **kw))
+    if not okc:
+        return
+    try:
+        rf, irf = plans
+    except Exception:  # noqa
+        ctx.spec("rfftn∘irfftn = id", inp, False, {"result": repr(plans)[:120]}, key="fft-roundtrip")
+        return
+    # several inputs through the same pair of plans: first in the buffers the plan was built on (when they are the caller's),
+    # then in fresh buffers; scales and offsets vary; output buffers hold garbage before the call
+    for rep_ in range(3):
+        scale = float(rng.choice([1e-9, 1e-3, 1.0, 1e3]))
+        offset = float(rng.choice([0.0, 10.0, 1000.0])) * scale
+        x = (offset + scale * rng.standard_normal(size=fast)).astype(dt)
+        if rep_ == 0 and buffers == "callers":
+            xin, spec_ = kw["temp_real"], kw["temp_fft"]
+        else:
+            xin, spec_ = be.zeros(fast, dt), be.zeros(ft, cdt)
+        out = be.zeros(fast, dt)
+        xin[...] = x
+        spec_[...] = 7.0 + 3.0j
+        out[...] = 5.0
+        inp_ = dict(inp, scale=scale, offset=offset, use=rep_)
+        x64 = x.astype(np.float64)
+        l2 = float(np.sqrt(np.sum(x64 * x64)))
+        ref = np.fft.rfftn(x64, s=fast, axes=tuple(range(len(fast))))
+        tol_f = 8.0 * eps * (1.0 + np.log2(n)) * np.sqrt(n) * l2
+        tol_r = 16.0 * eps * (1.0 + np.log2(n)) * l2
+
+        def _go():
+            r1 = rf(xin, spec_)
+            sp = np.array(spec_, copy=True)      # (the complex-to-real transform may overwrite its input)
+            same1 = r1 is spec_ or (np.shares_memory(r1, spec_) and r1.shape == spec_.shape)
+            r2 = irf(spec_, out)
+            same2 = r2 is out or (np.shares_memory(r2, out) and r2.shape == out.shape)
+            return sp, same1, np.array(out, copy=True), same2
+        okc, r = _call(ctx, "rfftn∘irfftn = id", inp_, "fft-roundtrip", _go)
+        if not okc:
+            return
+        sp, same1, back, same2 = r
+        e_f = float(np.max(np.abs(sp - ref))) if sp.shape == ref.shape else float("inf")
+        e_r = float(np.max(np.abs(back.astype(np.float64) - x64))) if back.shape == x64.shape else float("inf")
+        ctx.spec("forward real transform = DFT of the input (half spectrum)", inp_, e_f <= tol_f and same1,
+                 {"err": e_f, "allowed": tol_f, "result-in-given-buffer": bool(same1)}, key="fft-forward")
+        ctx.spec("rfftn∘irfftn = id", inp_, e_r <= tol_r and same2,
+                 {"err": e_r, "allowed": tol_r, "result-in-given-buffer": bool(same2)}, key="fft-roundtrip")
+    ctx.count("fftw:" + "/".join(variant))
+    ctx.count("fftw:last-" + ("1" if fast[-1] == 1 else "odd" if fast[-1] % 2 else "even"))
+    ctx.distinct(("fftw", fast, np.dtype(dt).name, variant))
+
+
+def _fft_wide(ctx, bes):
+    """transform pairs for extent-1 axes, primes and other non-fast lengths (the template filter is planned on the template's own
+    shape), non-cubic shapes; plans built on the caller's buffers / with an explicit inverse shape / with planner arguments"""
+    rng = ctx.rng("fft-wide")
+    shapes = [(1,), (2,), (3,), (17,), (31,), (1, 9), (9, 1), (1, 1, 5), (13, 11), (23, 4), (3, 19), (2, 2, 2), (4, 1, 7),
+              (11, 13, 3), (6, 10, 15), (5, 5, 1), (37,), (12, 18)]
+    if ctx.thorough:
+        shapes += [tuple(int(x) for x in rng.integers(1, 26, size=nd)) for nd in (1, 2, 3) for _ in range(40)]
+    variants = list(itertools.product(("fresh", "callers"), ("default", "explicit"), ("default", "empty-dict", "estimate")))
+    k = int(rng.integers(len(variants)))
+    for fast in shapes:
+        for dt, cdt in ((np.float32, np.complex64), (np.float64, np.complex128)):
+            _fft_case(ctx, bes[k % len(bes)][1], rng, fast, dt, cdt, variants[k % len(variants)])
+            k += 1
+    be = bes[0][1]
+    # the argument left out after having been given: planner arguments of one call must not stick to the next one
+    for fast in ((9,), (4, 7)):
+        _fft_case(ctx, be, rng, fast, np.float32, np.complex64, ("callers", "explicit", "estimate"))
+        _fft_case(ctx, be, rng, fast, np.float32, np.complex64, ("fresh", "default", "default"))
+
+
+# =====================================================================================================================
+def _pad_wide(ctx, bes, d):
+    """corner padding for every dtype the library pads (real, integer, complex with an imaginary part), scaled / offset values,
+    fractional pad values, the pad value left out / given by keyword, inputs in every memory layout, axes that stay as they are,
+    and the padded array handed straight to a planned transform (as the scoring set-ups do)"""
+    rng = ctx.rng("pad-wide")
+    n = ctx.budget(300, 4000)
+    dts = [np.float32, np.float64, np.int32, np.int64, np.complex64, np.complex128]
+    reqs, keep = [], []
+    last_pad = {}
+    for i in range(n):
+        nd = 1 + i % 3
+        hi = (14, 9, 6)[nd - 1]
+        bname, be = bes[i % len(bes)] if i % 2 else bes[0]
+        sh = [int(x) for x in rng.integers(1, hi + 1, size=nd)]
+        ns = [int(x) for x in rng.integers(1, hi + 3, size=nd)]
+        if i % 29 == 3:
+            # more than 10 000 elements (beyond any size at which an implementation might switch its method)
+            sh = [[12000], [110, 100], [24, 22, 21]][nd - 1]
+            ns = [x + int(rng.integers(-2, 4)) for x in sh]
+        for ax in range(nd):
+            r = rng.random()
+            if r < 0.25:
+                ns[ax] = sh[ax]                      # this axis stays as it is
+            elif r < 0.35:
+                ns[ax] = sh[ax] + 1
+        dt = np.dtype(dts[int(rng.integers(len(dts)))])
+        vkind = "int" if rng.random() < 0.5 else "real"
+        a0 = _values(rng, sh, dt, vkind)
+        pads = [0, 1, -1, 7] + ([0.5, -2.25, 1e-9, 1e3] if dt.kind in "fc" else [])
+        pad = pads[int(rng.integers(len(pads)))]
+        how = ("positional", "keyword", "left-out")[int(rng.integers(3))]
+        if how == "left-out":
+            pad_eff = 0
+        else:
+            pad_eff = pad
+        lays = list(_layouts(a0, scratch_name="c13_pad_%d.dat" % i if i % 7 == 0 else None))
+        lname, a = lays[int(rng.integers(len(lays)))]
+        assert a.shape == a0.shape and np.array_equal(a, a0)
+        inp = {"shape": sh, "newshape": ns, "pad": pad, "pad-given": how, "dtype": dt.name, "layout": lname, "backend": bname,
+               "data": a0.reshape(-1).tolist() if a0.size <= 64 else "seeded (%d values)" % a0.size,
+               "pad-given-in-the-call-before": last_pad.get(bname)}
+        before = np.array(a, copy=True)
+        nsg = tuple(ns) if i % 2 else list(ns)      # (the callers hand over the list that compute_convolution_shapes returned)
+        inp["newshape-given-as"] = type(nsg).__name__
+        if how == "positional":
+            fn = lambda: be.topleft_pad(a, nsg, pad)                # noqa
+        elif how == "keyword":
+            fn = lambda: be.topleft_pad(arr=a, shape=nsg, padval=pad)   # noqa
+        else:
+            fn = lambda: be.topleft_pad(a, nsg)                     # noqa
+        okc, out = _call(ctx, "corner pad", inp, "topleft_pad", fn)
+        last_pad[bname] = pad_eff
+        if not okc:
+            continue
+        out = np.asarray(out)
+        ok = list(out.shape) == ns and out.dtype == dt
+        det = {"shape": list(out.shape), "dtype": str(out.dtype)}
+        if ok:
+            corner = tuple(slice(0, min(x, y)) for x, y in zip(sh, ns))
+            mask = np.ones(ns, bool)
+            mask[corner] = False
+            padv = np.asarray(pad_eff).astype(dt)
+            ok_c = out[corner].tobytes() == np.ascontiguousarray(a0[corner]).tobytes() or np.array_equal(out[corner], a0[corner])
+            ok_p = bool(np.all(out[mask] == padv))
+            ok_i = np.array_equal(np.asarray(a), before) and np.asarray(a).tobytes() == before.tobytes()
+            ok = ok_c and ok_p and ok_i
+            det = {"corner-is-data": bool(ok_c), "rest-is-pad": ok_p, "input-unchanged": bool(ok_i)}
+        ctx.spec("corner pad", inp, ok, det, key="topleft_pad", size=int(a0.size) * 1000 + int(np.prod(ns)))
+        if ok and i % 3 == 0:
+            # a result stays what it was when the helper is used again for the same target shape and dtype with other data
+            snapshot = out.copy()
+            other = _values(rng, sh, dt, vkind)
+            okc, out2 = _call(ctx, "corner pad", dict(inp, call="again, same shapes, other data and pad value"), "topleft_pad",
+                              lambda: be.topleft_pad(other, tuple(ns), 3))
+            if okc:
+                ctx.spec("corner pad", dict(inp, what="the result of a call is still intact after the next call with the same shapes"),
+                         out.tobytes() == snapshot.tobytes(), key="topleft_pad:result-overwritten-by-next-call",
+                         size=int(a0.size) * 1000 + int(np.prod(ns)))
+                last_pad[bname] = 3
+        ctx.count("padw:" + ("more-than-10000-elements" if a0.size > 10000 else "small"))
+        ctx.count("padw:backend-" + bname)
+        ctx.count("padw:" + lname)
+        ctx.count("padw:" + dt.name)
+        ctx.count("padw:pad-" + how)
+        ctx.count("padw:" + ("no-axis-changes" if sh == ns else "some-axis-unchanged" if any(x == y for x, y in zip(sh, ns)) else "all-axes-change"))
+        ctx.distinct(("padw", tuple(sh), tuple(ns), str(pad), dt.name, lname))
+        if vkind == "int" or dt.kind in "i":
+            if float(pad_eff) == int(pad_eff) and ok and a0.size <= 4000:
+                keep.append((inp, np.real(out).astype(np.int64).reshape(-1).tolist()))
+                reqs.append(("c13.topleftPad", {"shape": sh, "data": np.real(a0).astype(np.int64).reshape(-1).tolist(),
+                                                "newshape": ns, "pad": int(pad_eff)}))
+    for (inp, impl), m in zip(keep, d.batch(reqs)):
+        ctx.agree("topleft_pad(wide)", inp, impl, m)
+
+    # padded array -> planned forward transform, exactly as the scoring set-ups do: rfftn(be.topleft_pad(target, fast_shape), buffer)
+    from pyfftw import next_fast_len
+    be = bes[0][1]
+    for i in range(ctx.budget(10, 60)):
+        nd = 1 + i % 3
+        sh = [int(x) for x in rng.integers(1, (20, 10, 6)[nd - 1], size=nd)]
+        s2 = [int(x) for x in rng.integers(1, 6, size=nd)]
+        fast = tuple(int(next_fast_len(a + b - 1)) for a, b in zip(sh, s2))
+        ft = fast[:-1] + (fast[-1] // 2 + 1,)
+        dt, cdt = ((np.float32, np.complex64), (np.float64, np.complex128))[i % 2]
+        a0 = _values(rng, sh, dt, "real")
+        lays = list(_layouts(a0))
+        lname, a = lays[i % len(lays)]
+        inp = {"shape": sh, "fast": list(fast), "dtype": np.dtype(dt).name, "layout": lname}
+
+        def _go():
+            rf, irf = be.build_fft(fast_shape=fast, fast_ft_shape=ft, real_dtype=dt, complex_dtype=cdt)
+            buf = be.zeros(ft, cdt)
+            buf[...] = 1.0 - 2.0j
+            r = rf(be.topleft_pad(a, fast), buf)
+            return np.array(r, copy=True)
+        okc, sp = _call(ctx, "corner pad", dict(inp, what="padded array handed to the planned transform"), "topleft_pad:into-fft", _go)
+        if not okc:
+            continue
+        want = np.zeros(fast, np.float64)
+        want[tuple(slice(0, x) for x in sh)] = a0.astype(np.float64)
+        ref = np.fft.rfftn(want, s=fast, axes=tuple(range(nd)))
+        nn = int(np.prod(fast))
+        tol = 8.0 * float(np.finfo(dt).eps) * (1.0 + np.log2(nn)) * np.sqrt(nn) * float(np.sqrt(np.sum(want * want)))
+        e = float(np.max(np.abs(sp - ref))) if sp.shape == ref.shape else float("inf")
+        ctx.spec("corner pad", dict(inp, what="padded array handed to the planned transform"), e <= tol, {"err": e, "allowed": tol},
+                 key="topleft_pad:into-fft")
+        ctx.distinct(("pad-fft", tuple(sh), fast, np.dtype(dt).name, lname))
+
+
+# =====================================================================================================================
+def _center_wide(ctx, bes, d):
+    """centre extraction in 1-3 dimensions with a different extent / parity on every axis, axes that are not reduced, extents far
+    beyond the exhaustive range; target shape given in every container; arrays in several layouts and dtypes"""
+    from tme.matching_utils import _center_slice, centered
+    rng = ctx.rng("center-wide")
+    n = ctx.budget(320, 4000)
+    reqs, keep = [], []
+    for i in range(n):
+        nd = 1 + i % 3
+        if nd == 1 and i % 2 == 0:
+            cur = [int(rng.integers(17, 6000))]
+        elif i % 31 == 4:
+            cur = [[20011], [130, 101], [30, 23, 21]][nd - 1]          # more than 10 000 elements
+        else:
+            cur = [int(x) for x in rng.integers(1, (40, 14, 9)[nd - 1] + 1, size=nd)]
+        new = []
+        for c in cur:
+            r = rng.random()
+            new.append(c if r < 0.25 else max(1, c - 1) if r < 0.4 else 1 if r < 0.5 else 0 if r < 0.52 else int(rng.integers(1, c + 1)))
+        cont = _CONTAINERS[int(rng.integers(len(_CONTAINERS)))]
+        dt = np.dtype([np.float32, np.float64, np.int32][i % 3])
+        base = np.arange(int(np.prod(cur))).reshape(cur).astype(dt)
+        lays = [l for l in _layouts(base) if l[0] in ("C", "F", "strided-offset-view", "read-only")]
+        lname, arr = lays[int(rng.integers(len(lays)))]
+        keep.append((cur, new, cont, dt, lname, arr, base))
+        reqs.append(("c13.centerBox", {"cur": cur, "new": new, "kind": "floor"}))
+        reqs.append(("c13.centerBox", {"cur": cur, "new": new, "kind": "trunc"}))
+    models = d.batch(reqs)
+    for j, (cur, new, cont, dt, lname, arr, base) in enumerate(keep):
+        nw = _container(cont, new)
+        bname, be = bes[j % len(bes)]
+        inp = {"cur": cur, "new": new, "given-as": cont, "dtype": dt.name, "layout": lname, "backend": bname}
+        ctx.count("centerw:backend-" + bname)
+        ctx.count("centerw:" + ("more-than-10000-elements" if base.size > 10000 else "small"))
+        if 0 in new:
+            ctx.count("centerw:empty-result")
+        okc, box = _call(ctx, "centre extraction: extent and symmetry", dict(inp, helper="_center_slice"), "_center_slice",
+                         lambda: _center_slice(tuple(cur), nw))
+        if okc:
+            try:
+                implb = [[int(b.start), int(b.stop)] for b in box]
+            except Exception:  # noqa
+                implb = repr(box)[:120]
+            ctx.agree("_center_slice(nD)", inp, implb, models[2 * j])
+        for name, fn, m in (("centered", (lambda: centered(arr=arr, new_shape=nw)) if j % 2 else (lambda: centered(arr, nw)), models[2 * j]),
+                            ("extract_center", (lambda: be.extract_center(arr=arr, newshape=nw)) if j % 2 else (lambda: be.extract_center(arr, nw)),
+                             models[2 * j + 1])):
+            inp_ = dict(inp, helper=name)
+            okc, got = _call(ctx, "centre extraction: extent and symmetry", inp_, name, fn)
+            if not okc:
+                continue
+            got = np.asarray(got)
+            ok = got.shape == tuple(new) and got.dtype == dt
+            det = {"shape": list(got.shape)}
+            starts = None
+            if ok and got.size:
+                starts = [int(x) for x in np.unravel_index(int(round(float(got[(0,) * len(cur)]))), cur)]
+                for st, c, k in zip(starts, cur, new):
+                    right = c - st - k
+                    ok = ok and st <= right <= st + 1
+                ok = ok and np.array_equal(got, base[tuple(slice(st, st + k) for st, k in zip(starts, new))])
+                det = {"starts": starts}
+            ctx.spec("centre extraction: extent and symmetry", inp_, ok, det, key=name)
+            if starts is not None:
+                ctx.agree(name + "(nD)", inp_, [[st, st + k] for st, k in zip(starts, new)], m)
+        ctx.count("centerw:ndim=%d" % len(cur))
+        ctx.count("centerw:" + ("no-axis-reduced" if cur == new else "some-axis-not-reduced" if any(a == b for a, b in zip(cur, new)) else "all-reduced"))
+        ctx.count("centerw:given-as-" + cont)
+        ctx.distinct(("centerw", tuple(cur), tuple(new)))
+
+
+# =====================================================================================================================
+def _crop_wide(ctx, be, d):
+    """full / same / valid crops: longer extents, template larger than the target (full, same), the array with and without the
+    FFT padding, the convolution shape given explicitly (equal to the default, the whole array, something in between), shapes in
+    every container, the masking form in every dtype and layout with negative values, names that are not a mode"""
+    from pyfftw import next_fast_len
+    from tme.matching_utils import apply_convolution_mode
+    rng = ctx.rng("crop-wide")
+    n = ctx.budget(360, 4500)
+    cases, reqs = [], []
+    for i in range(n):
+        nd = 1 + i % 3
+        mode = ("full", "same", "valid")[(i // 3) % 3]
+        if nd == 1 and rng.random() < 0.4:
+            s1 = [int(rng.integers(10, 400))]
+            s2 = [int(rng.integers(1, 400))]
+        else:
+            hi = (24, 10, 6)[nd - 1]
+            s1 = [int(x) for x in rng.integers(1, hi + 1, size=nd)]
+            s2 = [int(x) for x in rng.integers(1, hi + 1, size=nd)]
+        if mode == "valid" or rng.random() < 0.5:
+            s2 = [min(a, b) for a, b in zip(s1, s2)]
+        conv0 = [a + b - 1 for a, b in zip(s1, s2)]
+        fast = [int(next_fast_len(c)) for c in conv0]
+        akind = ("fft-padded", "exact", "larger")[int(rng.integers(3))]
+        ashape = fast if akind == "fft-padded" else conv0 if akind == "exact" else [f + int(rng.integers(1, 4)) for f in fast]
+        ckind = ("default", "default", "explicit-default", "whole-array", "between")[int(rng.integers(5))]
+        if ckind in ("default", "explicit-default"):
+            conv = conv0
+        elif ckind == "whole-array":
+            conv = list(ashape)
+        else:
+            conv = [int(rng.integers(a, b + 1)) for a, b in zip(s1, ashape)]      # at least the target extent on every axis
+        ext = [{"full": c, "same": a, "valid": a - b + b % 2}[mode] for a, b, c in zip(s1, s2, conv)]
+        cont = _CONTAINERS[int(rng.integers(len(_CONTAINERS)))]
+        masked = bool(i % 2)
+        dt = np.dtype([np.float64, np.float32, np.int32, np.complex64][int(rng.integers(4))])
+        cases.append((s1, s2, mode, ashape, akind, ckind, conv, ext, cont, masked, dt))
+        for a, b, c in zip(s1, s2, conv):
+            reqs.append(("c13.convCrop", {"mode": mode, "conv": c, "s1": a, "s2": b}))
+    models = d.batch(reqs)
+    pos = 0
+    mreqs, mkeep = [], []
+    for (s1, s2, mode, ashape, akind, ckind, conv, ext, cont, masked, dt) in cases:
+        nd = len(s1)
+        model = models[pos:pos + nd]
+        pos += nd
+        kw = {} if ckind == "default" else {"convolution_shape": _container(cont, conv)}
+        a1, a2 = _container(cont, s1), _container(cont, s2)
+        inp = {"s1": s1, "s2": s2, "mode": mode, "array-shape": ashape, "convolution_shape": ckind if ckind == "default" else conv,
+               "given-as": cont}
+        lo = [(c - e) // 2 for c, e in zip(conv, ext)]
+        ctx.count("cropw:" + mode)
+        ctx.count("cropw:array-" + akind)
+        ctx.count("cropw:convolution_shape-" + ckind)
+        ctx.distinct(("cropw", tuple(s1), tuple(s2), mode, tuple(conv), tuple(ashape), masked))
+        if not masked:
+            idx = np.indices(ashape)
+            okc, got = _call(ctx, "full/same/valid extents, central", inp, "apply_convolution_mode",
+                             lambda: [np.asarray(apply_convolution_mode(idx[ax], mode, a1, a2, **kw)) for ax in range(nd)])
+            if not okc:
+                continue
+            ok = all(g.shape == tuple(ext) for g in got)
+            impl = None
+            if ok and all(ext):
+                impl = [[int(g.min()), int(g.max()) - int(g.min()) + 1] for g in got]
+                for ax in range(nd):
+                    l_ = impl[ax][0]
+                    right = conv[ax] - (l_ + ext[ax])
+                    ok = ok and l_ <= right <= l_ + 1 and np.array_equal(
+                        got[ax], np.broadcast_to(np.arange(l_, l_ + ext[ax]).reshape([-1 if k == ax else 1 for k in range(nd)]), ext))
+                ctx.agree("apply_convolution_mode(wide)", inp, impl, [list(m) for m in model])
+            ctx.spec("full/same/valid extents, central", inp, ok, {"shapes": [list(g.shape) for g in got], "start,extent": impl},
+                     key="apply_convolution_mode")
+        else:
+            base = _values(rng, ashape, dt, "int")
+            base[base == 0] = 3
+            lays = [l for l in _layouts(base) if l[0] in ("C", "F", "strided-offset-view")]
+            lname, vals = lays[int(rng.integers(len(lays)))]
+            vals = vals if lname == "strided-offset-view" else vals.copy(order="K")
+            inp_ = dict(inp, dtype=dt.name, layout=lname, mask_output=True)
+            cut = tuple(slice(0, c) for c in conv)
+            want = np.zeros_like(base[cut])
+            box = tuple(slice(l_, l_ + e) for l_, e in zip(lo, ext))
+            want[box] = base[cut][box]
+            okc, got = _call(ctx, "masked centre extraction keeps the box and zeroes the rest", inp_, "centered_mask",
+                             lambda: apply_convolution_mode(vals, mode, a1, a2, mask_output=True, **kw))
+            if not okc:
+                continue
+            got = np.asarray(got)
+            ok = got.shape == want.shape and got.dtype == dt and np.array_equal(got, want)
+            ctx.spec("masked centre extraction keeps the box and zeroes the rest", inp_, ok,
+                     None if ok else {"shape": list(got.shape), "kept": int(np.count_nonzero(got)), "expected": int(np.count_nonzero(want))},
+                     key="centered_mask")
+            ctx.count("cropw:masked-" + lname)
+            if base.size <= 2000 and got.shape == want.shape:
+                mkeep.append((inp_, {"shape": list(got.shape), "data": np.real(got).astype(np.int64).reshape(-1).tolist()}))
+                mreqs.append(("c13.convMask", {"mode": mode, "shape": list(ashape), "data": np.real(base).astype(np.int64).reshape(-1).tolist(),
+                                               "conv": conv, "s1": s1, "s2": s2}))
+    for (inp_, impl), m in zip(mkeep, d.batch(mreqs)):
+        ctx.agree("apply_convolution_mode(mask_output)", inp_, impl, m)
+
+    # names that are not one of the three modes are rejected - never silently treated as some mode (or as none: returning None)
+    arr = np.arange(12.0)
+    for name in ("Same", "FULL", "Valid", "valid ", " full", "sam", "fulll", "", "circular", "wrap"):
+        try:
+            r = apply_convolution_mode(arr.copy(), name, (8,), (5,))
+            okm, det = False, {"returned": repr(r)[:80]}
+        except ValueError:
+            okm, det = True, None
+        except Exception as e:  # noqa
+            okm, det = False, {"raised": type(e).__name__}
+        ctx.spec("only 'full', 'same', 'valid' are modes", {"mode": name}, okm, det, key="apply_convolution_mode:unknown-mode")
+
+
+# =====================================================================================================================
+_SPECIAL = {"f": [0.0, -0.0, float("inf"), float("-inf"), float("nan"), 1e-40, -1e-40, 1e-9, 1e3, 16777217.0, 0.1]}
+
+
+def _shm_wide(ctx, bes):
+    """shared memory: every dtype the library shares (scores, rotations, spectra, masks), bit patterns that do not survive a
+    conversion (nan, -0.0, subnormal, 2^24+1, 0.1), one-element arrays and blocks beyond a page, all layouts incl. read-only and
+    memmap, blocks made without a manager; many blocks of equal size alive at once, all read back (here and in ONE other process)
+    only after the last one was written"""
+    from multiprocessing.managers import SharedMemoryManager
+    rng = ctx.rng("shm-wide")
+    clause = "shared memory reads back identical in another process"
+    dts = [np.float32, np.float64, np.int32, np.int64, np.complex64, np.complex128, np.uint8, np.bool_, np.float16]
+    n = ctx.budget(36, 300)
+    entries, raw = [], []
+    be0 = bes[0][1]
+    try:
+        with SharedMemoryManager() as smh:
+            same_shape = (3, 4)
+            for i in range(n):
+                dt = np.dtype(dts[i % len(dts)])
+                kind = ("small", "same-size", "one-element", "beyond-a-page")[i % 4] if i >= 4 else ("beyond-a-page", "small", "same-size", "one-element")[i]
+                if kind == "small":
+                    sh = tuple(int(x) for x in rng.integers(1, 7, size=int(rng.integers(1, 4))))
+                elif kind == "same-size":
+                    sh = same_shape
+                    dt = np.dtype([np.float32, np.int32][(i // 4) % 2])
+                elif kind == "one-element":
+                    sh = (1,) * int(rng.integers(1, 4))
+                else:
+                    sh = (int(rng.integers(1100, 1400)), 3) if i % 8 else (int(rng.integers(66000, 70000)),)
+                if dt.kind == "b":
+                    a0 = rng.integers(0, 2, size=sh).astype(dt)
+                elif dt.kind == "u":
+                    a0 = rng.integers(0, 256, size=sh).astype(dt)
+                elif dt.kind == "i":
+                    a0 = rng.integers(-2 ** 31, 2 ** 31, size=sh).astype(dt)
+                else:
+                    a0 = _values(rng, sh, dt, "real")
+                    flat = a0.reshape(-1)
+                    with np.errstate(all="ignore"):
+                        for v in _SPECIAL["f"]:
+                            if rng.random() < 0.5:
+                                flat[int(rng.integers(flat.size))] = v
+                lays = list(_layouts(a0, scratch_name="c13_shm_%d.dat" % i if i % 5 == 0 else None))
+                lname, a = lays[-1] if i % 5 == 0 else lays[i % len(lays)]
+                handler = None if i % 6 == 5 else smh
+                bname, be = bes[(i // 2) % len(bes)]
+                inp = {"shape": list(sh), "dtype": dt.name, "layout": lname, "manager": handler is not None, "order-written": i, "backend": bname,
+                       "values": a0.reshape(-1).tolist() if a0.size <= 24 and dt.kind != "c" else "seeded (%d values)" % a0.size}
+                okc, args = _call(ctx, clause, inp, "sharedarr", lambda: (be.to_sharedarr(arr=a, shared_memory_handler=handler) if i % 2 else be.to_sharedarr(a, handler)) if handler is not None else be.to_sharedarr(a))
+                if not okc:
+                    continue
+                try:
+                    if handler is None:
+                        raw.append(args[0])
+                    meta_ok = tuple(args[1]) == tuple(a0.shape) and np.dtype(args[2]) == dt
+                except Exception:  # noqa
+                    meta_ok = False
+                if not meta_ok:
+                    ctx.spec(clause, inp, False, {"returned": repr(args)[:160]}, key="sharedarr")
+                    continue
+                entries.append((inp, a0, args))
+                ctx.count("shmw:" + kind)
+                ctx.count("shmw:" + dt.name)
+                ctx.count("shmw:layout-" + lname)
+                ctx.count("shmw:" + ("manager" if handler is not None else "no-manager"))
+                ctx.distinct(("shmw", sh, dt.name, lname, handler is None))
+            # all written; now read every block back, here ...
+            here = []
+            for inp, a0, args in entries:
+                okc, r = _call(ctx, clause, inp, "sharedarr", lambda: np.ascontiguousarray(be0.from_sharedarr(args)))
+                here.append(r if okc else None)
+            # ... and in one other process
+            other = [None] * len(entries)
+            if entries:
+                mpctx = mp.get_context("spawn")
+                q = mpctx.Queue()
+                p = mpctx.Process(target=_child_read_many, args=([e[2] for e in entries], q))
+                p.start()
+                try:
+                    other = q.get(timeout=300)
+                except Exception as e:  # noqa
+                    other = [("raised:" + type(e).__name__, None, None)] * len(entries)
+                p.join(60)
+            for (inp, a0, args), h, o in zip(entries, here, other):
+                want = np.ascontiguousarray(a0).tobytes()
+                ok_h = h is not None and h.shape == a0.shape and h.dtype == a0.dtype and h.tobytes() == want
+                ok_o = o is not None and o[1] == tuple(a0.shape) and o[2] == a0.dtype.str and o[0] == want
+                ctx.spec(clause, inp, ok_h and ok_o,
+                         {"same-process": bool(ok_h), "other-process": bool(ok_o) if not (o and isinstance(o[0], str)) else o[0]}, key="sharedarr",
+                         size=int(a0.size))
+    finally:
+        for shm in raw:
+            try:
+                shm.close()
+                shm.unlink()
+            except Exception:  # noqa
+                pass
